@@ -73,6 +73,9 @@ type PropT[C any] struct {
 	// and then c is checked again: a result must not depend on which related calls were made before (a cache keyed by
 	// a subset of the arguments, a memo that is not invalidated, a reused scratch buffer).
 	Related func(*C) []*C
+	// NoRevisit switches off the long-history re-check (cases kept from early in a run are checked again every few
+	// thousand evaluations): for properties whose single cases are expensive or schedule dependent.
+	NoRevisit bool
 }
 
 // prop is the untyped form used by the runner.
@@ -88,6 +91,7 @@ type prop struct {
 	sweepScopes func(string) []string
 	replayRuns  int
 	related     func(any) []any
+	noRevisit   bool
 }
 
 var registry = map[string]*prop{}
@@ -100,6 +104,7 @@ func register[C any](p PropT[C]) {
 		check:      func(c any, f *Fails) { p.Check(c.(*C), f) },
 		classify:   func(c any) (bool, []string) { return p.Classify(c.(*C)) },
 		replayRuns: p.ReplayRuns,
+		noRevisit:  p.NoRevisit,
 	}
 	if p.Sweep != nil {
 		q.sweep = func(tier string, emit func(any)) { p.Sweep(tier, func(c *C) { emit(c) }) }
@@ -291,6 +296,15 @@ type replayFile struct {
 	Case     json.RawMessage `json:"case"`
 	Fails    []Fail          `json:"fails,omitempty"`
 	Note     string          `json:"note,omitempty"`
+	// History is set when the failure depends on what the process did before (a case that passed early in a generated
+	// run fails when checked again later): the replay repeats the generated run (a pure function of seed and count).
+	History *replayHistory `json:"history,omitempty"`
+}
+
+type replayHistory struct {
+	Seed   string `json:"rapid_seed"`
+	Checks int    `json:"evaluations"`
+	First  int    `json:"first_checked_at"`
 }
 
 // libraryPanic decides from a stack trace whether a recovered panic came out of the code
@@ -391,6 +405,10 @@ func trimStack(st string) string {
 }
 
 func writeReplay(p *prop, s *stats, c any, fails []Fail, tag string) string {
+	return writeReplayH(p, s, c, fails, tag, nil)
+}
+
+func writeReplayH(p *prop, s *stats, c any, fails []Fail, tag string, hist *replayHistory) string {
 	dir := os.Getenv("VERIF_REPLAY_DIR")
 	if dir == "" {
 		dir = "../replays"
@@ -398,7 +416,11 @@ func writeReplay(p *prop, s *stats, c any, fails []Fail, tag string) string {
 	_ = os.MkdirAll(dir, 0o755)
 	path := fmt.Sprintf("%s/%s-%s.json", dir, p.id, tag)
 	cb, _ := json.Marshal(c)
-	b, _ := json.MarshalIndent(replayFile{Property: p.id, Case: cb, Fails: fails}, "", " ")
+	rf := replayFile{Property: p.id, Case: cb, Fails: fails, History: hist}
+	if hist != nil {
+		rf.Note = "history-dependent: the case passes in a fresh process; the replay repeats the generated run that precedes it"
+	}
+	b, _ := json.MarshalIndent(rf, "", " ")
 	_ = os.WriteFile(path, b, 0o644)
 	s.mu.Lock()
 	found := false
